@@ -152,19 +152,23 @@ Qed.
 Definition is_dq (c : ascii) : bool := (byte c =? 34)%N.
 Definition is_bsl (c : ascii) : bool := (byte c =? 92)%N.
 
-(* every double quote is immediately preceded by a backslash; p = "the byte before is a backslash" *)
-Fixpoint qesc (p : bool) (b : str) : bool :=
+(* JSON's rule inside a string literal: a backslash escapes the next byte.  e = "the previous byte was an
+   unescaped backslash"; None = an unescaped double quote occurs; Some e' = the state after the bytes *)
+Fixpoint esc_run (e : bool) (b : str) : option bool :=
   match b with
-  | [] => true
-  | c :: t => (if is_dq c then p else true) && qesc (is_bsl c) t
+  | [] => Some e
+  | c :: t => if is_dq c && negb e then None else esc_run (negb e && is_bsl c) t
   end.
-(* what one iteration emits: non-empty, does not start with a quote, quotes inside are escaped *)
-Definition unit_okb (u : str) : bool :=
-  match u with [] => false | h :: _ => negb (is_dq h) && qesc false u end.
 
-Lemma esc_ascii_unit : forall eh c, unit_okb (esc_ascii eh c) = true.
-Proof. intros eh c. destruct c as [[] [] [] [] [] [] [] []]; destruct eh; reflexivity. Qed.
-Lemma esc_ascii_last : forall eh c, is_bsl (last (esc_ascii eh c) dq) = is_bsl c.
+Lemma esc_run_app : forall u v e,
+  esc_run e (u ++ v) = match esc_run e u with Some e' => esc_run e' v | None => None end.
+Proof.
+  induction u as [|c u IH]; intros v e; [reflexivity|]. cbn [app esc_run].
+  destruct (is_dq c && negb e); [reflexivity|apply IH].
+Qed.
+
+(* every escape the encoder writes is complete: it starts and ends outside an escape and holds no bare quote *)
+Lemma esc_ascii_run : forall eh c, esc_run false (esc_ascii eh c) = Some false.
 Proof. intros eh c. destruct c as [[] [] [] [] [] [] [] []]; destruct eh; reflexivity. Qed.
 
 Lemma byte_a_of : forall n, (n < 256)%N -> byte (a_of n) = n.
@@ -180,15 +184,10 @@ Qed.
 Lemma high_plain : forall c, high c = true -> is_dq c = false /\ is_bsl c = false.
 Proof. intros c H. unfold high in H. apply N.leb_le in H. unfold is_dq, is_bsl. split; apply N.eqb_neq; lia. Qed.
 
-Lemma high_qesc : forall u p, forallb high u = true -> qesc p u = true.
-Proof.
-  induction u as [|c u IH]; intros p H; [reflexivity|]. cbn in H. apply andb_true_iff in H as [Hc Hu].
-  destruct (high_plain c Hc) as [Hd Hb]. cbn. rewrite Hd, Hb. cbn. now apply IH.
-Qed.
-Lemma high_last : forall u, forallb high u = true -> is_bsl (last u dq) = false.
+Lemma high_run : forall u, forallb high u = true -> esc_run false u = Some false.
 Proof.
   induction u as [|c u IH]; intro H; [reflexivity|]. cbn in H. apply andb_true_iff in H as [Hc Hu].
-  destruct u as [|c' u]; [exact (proj2 (high_plain c Hc))|]. change (last (c :: c' :: u) dq) with (last (c' :: u) dq). now apply IH.
+  destruct (high_plain c Hc) as [Hd Hb]. cbn. rewrite Hd, Hb. cbn. now apply IH.
 Qed.
 
 Lemma is_2028_lt : forall x d, is_2028 x = Some d -> (d < 16)%N.
@@ -198,69 +197,38 @@ Proof.
   injection H as <-. apply N.mod_lt. lia.
 Qed.
 
-Lemma firstn_skipn_ne : forall (x : str) n, 1 <= n -> x <> [] -> firstn n x <> [].
+Lemma firstn_ne : forall (x : str) n, 1 <= n -> x <> [] -> firstn n x <> [].
 Proof. intros x n Hn Hx. destruct x; [congruence|]. destruct n; [lia|]. discriminate. Qed.
 
-(* one iteration: it consumes a non-empty prefix `pre` of x and emits a well-shaped unit that ends in a
-   backslash exactly when pre does *)
+(* one iteration: it consumes a non-empty prefix `pre` of x and emits a non-empty, complete unit *)
 Lemma q_step_spec : forall eh x out rest, q_step eh x = Some (out, rest) ->
-  exists pre, x = pre ++ rest /\ pre <> [] /\ unit_okb out = true /\
-              is_bsl (last out dq) = is_bsl (last pre dq).
+  exists pre, x = pre ++ rest /\ pre <> [] /\ out <> [] /\ esc_run false out = Some false.
 Proof.
   intros eh x out rest H. destruct x as [|c t]; [discriminate|]. cbn [q_step] in H.
   destruct (byte c <? 128)%N eqn:Ec.
-  - injection H as <- <-. exists [c]. split; [reflexivity|]. split; [discriminate|]. split; [apply esc_ascii_unit|apply esc_ascii_last].
+  - injection H as <- <-. exists [c]. split; [reflexivity|]. split; [discriminate|]. split; [|apply esc_ascii_run].
+    destruct c as [[] [] [] [] [] [] [] []]; destruct eh; discriminate.
   - assert (Hh : high c = true) by (unfold high; apply N.leb_le; apply N.ltb_ge in Ec; lia).
     destruct (rune_size (c :: t)) as [n|] eqn:E.
     + destruct (rune_size_pos _ _ E) as [Hn Hl].
       destruct (rune_bytes _ _ E Hh) as [Hall _].
       destruct (is_2028 (c :: t)) as [d|] eqn:E2; injection H as <- <-; exists (firstn n (c :: t)).
       * destruct (hexdig_plain d (is_2028_lt _ _ E2)) as [Hd Hb].
-        split; [symmetry; apply firstn_skipn|]. split; [now apply firstn_skipn_ne|]. split.
-        -- cbn. rewrite Hd. reflexivity.
-        -- cbn [last]. rewrite Hb. symmetry. now apply high_last.
-      * split; [symmetry; apply firstn_skipn|]. split; [now apply firstn_skipn_ne|]. split; [|reflexivity].
-        destruct n; [lia|]. cbn [firstn] in *. cbn [forallb] in Hall. apply andb_true_iff in Hall as [_ Hall'].
-        cbn [unit_okb]. rewrite (proj1 (high_plain c Hh)). cbn [negb andb].
-        apply high_qesc. cbn. rewrite Hh. exact Hall'.
-    + injection H as <- <-. exists [c]. split; [reflexivity|]. split; [discriminate|]. split; [reflexivity|].
-      cbn. symmetry. exact (proj2 (high_plain c Hh)).
+        split; [symmetry; apply firstn_skipn|]. split; [now apply firstn_ne|]. split; [discriminate|].
+        cbn. rewrite Hd, Hb. reflexivity.
+      * split; [symmetry; apply firstn_skipn|]. split; [now apply firstn_ne|]. split; [now apply firstn_ne|].
+        now apply high_run.
+    + injection H as <- <-. exists [c]. split; [reflexivity|]. split; [discriminate|]. split; [discriminate|reflexivity].
 Qed.
 
-Lemma qesc_app : forall u v p, u <> [] -> qesc p (u ++ v) = qesc p u && qesc (is_bsl (last u dq)) v.
+(* inside a literal the encoder wrote, JSON's escape rule never meets a bare quote and ends outside an escape -
+   for every string, also one that ends in a backslash *)
+Lemma quote_body_run : forall eh x, esc_run false (quote_body eh x) = Some false.
 Proof.
-  induction u as [|c u IH]; intros v p Hu; [congruence|].
-  destruct u as [|c' u].
-  - cbn. now rewrite andb_true_r.
-  - change ((c :: c' :: u) ++ v) with (c :: (c' :: u) ++ v). cbn [qesc].
-    rewrite IH by discriminate. change (last (c :: c' :: u) dq) with (last (c' :: u) dq).
-    now rewrite andb_assoc.
-Qed.
-
-Lemma qesc_head : forall v p, match v with h :: _ => is_dq h = false | [] => True end -> qesc p v = qesc false v.
-Proof. intros [|h v] p H; [reflexivity|]. cbn. now rewrite H. Qed.
-
-Lemma unit_head : forall u v, unit_okb u = true -> match u ++ v with h :: _ => is_dq h = false | [] => True end.
-Proof. intros [|h u] v H; [discriminate|]. cbn in *. apply andb_true_iff in H as [H _]. now apply negb_true_iff in H. Qed.
-
-Lemma quote_body_head : forall eh x, match quote_body eh x with h :: _ => is_dq h = false | [] => True end.
-Proof.
-  intros eh x. destruct x as [|c t]; [exact I|].
-  destruct (q_step_total eh (c :: t)) as (out & rest & E); [discriminate|].
-  rewrite (quote_body_step eh _ out rest) by (discriminate || exact E).
-  destruct (q_step_spec _ _ _ _ E) as (pre & _ & _ & Hu & _). now apply unit_head.
-Qed.
-
-(* inside a literal the encoder wrote, every quote is escaped *)
-Lemma quote_body_qesc : forall eh x p, qesc p (quote_body eh x) = true.
-Proof.
-  intros eh x p. rewrite qesc_head by apply quote_body_head. clear p.
-  induction x as [|x out rest Hx E IH] using (chunk_ind eh); [reflexivity|].
+  intros eh. induction x as [|x out rest Hx E IH] using (chunk_ind eh); [reflexivity|].
   rewrite (quote_body_step eh x out rest Hx E).
-  destruct (q_step_spec _ _ _ _ E) as (pre & _ & _ & Hu & _).
-  assert (Ho : out <> []) by (destruct out; [discriminate|discriminate]).
-  rewrite qesc_app by exact Ho. rewrite (qesc_head (quote_body eh rest)) by apply quote_body_head.
-  rewrite IH, andb_true_r. destruct out; [discriminate|]. cbn in Hu. now apply andb_true_iff in Hu as [_ Hu].
+  destruct (q_step_spec _ _ _ _ E) as (pre & _ & _ & _ & Hr).
+  now rewrite esc_run_app, Hr.
 Qed.
 
 Lemma quote_body_nil_iff : forall eh x, quote_body eh x = [] -> x = [].
@@ -268,25 +236,48 @@ Proof.
   intros eh x H. destruct x as [|c t]; [reflexivity|].
   destruct (q_step_total eh (c :: t)) as (out & rest & E); [discriminate|].
   rewrite (quote_body_step eh _ out rest) in H by (discriminate || exact E).
-  destruct (q_step_spec _ _ _ _ E) as (pre & _ & _ & Hu & _). destruct out; [discriminate|discriminate].
+  destruct (q_step_spec _ _ _ _ E) as (pre & _ & _ & Ho & _). destruct out; [congruence|discriminate].
 Qed.
 
-Lemma last_app_ne {A} : forall (u v : list A) d, v <> [] -> last (u ++ v) d = last v d.
-Proof.
-  induction u as [|a u IH]; intros v d Hv; [reflexivity|].
-  cbn [app]. destruct (u ++ v) eqn:E.
-  - apply app_eq_nil in E as [_ ->]. congruence.
-  - rewrite <- E. cbn [last]. rewrite E. rewrite <- E. now apply IH.
-Qed.
+(* ------------------------------------------------------------------ the structure json.Marshal writes *)
 
-(* the body ends in a backslash exactly when the string does *)
-Lemma quote_body_last : forall eh x, is_bsl (last (quote_body eh x) dq) = is_bsl (last x dq).
+Lemma jinsert_Forall {A} (P : str * A -> Prop) : forall kv l, P kv -> Forall P l -> Forall P (jinsert kv l).
 Proof.
-  intros eh. induction x as [|x out rest Hx E IH] using (chunk_ind eh); [reflexivity|].
-  rewrite (quote_body_step eh x out rest Hx E).
-  destruct (q_step_spec _ _ _ _ E) as (pre & -> & Hp & Hu & Hl).
-  destruct rest as [|r rest].
-  - rewrite quote_body_nil, !app_nil_r. exact Hl.
-  - rewrite (last_app_ne pre) by discriminate.
-    rewrite last_app_ne; [exact IH|]. intro H. apply quote_body_nil_iff in H. discriminate.
+  intros kv l Hkv Hl. induction Hl as [|a l Ha Hl IH]; cbn; [auto|].
+  destruct (str_leb (fst kv) (fst a)); auto.
+Qed.
+Lemma jsort_Forall {A} (P : str * A -> Prop) : forall l, Forall P l -> Forall P (jsort l).
+Proof. intros l H. induction H; cbn; [constructor|]. now apply jinsert_Forall. Qed.
+
+Lemma kids_map : forall eh m,
+  (fix go (m : entries) : list (str * list seg) :=
+     match m with [] => [] | (k, x) :: t => (k, segments eh x) :: go t end) m
+  = map (fun kx => (fst kx, segments eh (snd kx))) m.
+Proof. intro eh. induction m as [|[k x] m IH]; [reflexivity|]. cbn [map fst snd]. rewrite <- IH. reflexivity. Qed.
+Lemma elems_map : forall eh l,
+  (fix go (l : list value) : list (list seg) :=
+     match l with [] => [] | x :: t => segments eh x :: go t end) l = map (segments eh) l.
+Proof. intro eh. induction l as [|x l IH]; [reflexivity|]. cbn [map]. rewrite <- IH. reflexivity. Qed.
+
+Definition entry_segs (eh : bool) (kx : str * list seg) : list seg := SQ (quote_body eh (fst kx)) :: sp1 ":" :: snd kx.
+
+Lemma segments_vmap : forall eh m, segments eh (VMap m) =
+  sp1 "{" :: sep_by (sp1 ",") (map (entry_segs eh) (jsort (map (fun kx => (fst kx, segments eh (snd kx))) m))) ++ [sp1 "}"].
+Proof. intros eh m. cbn [segments]. rewrite kids_map. reflexivity. Qed.
+Lemma segments_vlist : forall eh l, segments eh (VList l) = sp1 "[" :: sep_by (sp1 ",") (map (segments eh) l) ++ [sp1 "]"].
+Proof. intros eh l. cbn [segments]. rewrite elems_map. reflexivity. Qed.
+
+
+Lemma jinsert_map_snd {A B} (g : A -> B) : forall kv (l : list (str * A)),
+  jinsert (fst kv, g (snd kv)) (map (fun kx => (fst kx, g (snd kx))) l) = map (fun kx => (fst kx, g (snd kx))) (jinsert kv l).
+Proof.
+  intros kv l. induction l as [|a l IH]; [reflexivity|]. cbn [map jinsert fst snd].
+  destruct (str_leb (fst kv) (fst a)); [reflexivity|]. cbn [map]. now rewrite IH.
+Qed.
+(* sorting by key commutes with a change of the values *)
+Lemma jsort_map_snd {A B} (g : A -> B) : forall (l : list (str * A)),
+  jsort (map (fun kx => (fst kx, g (snd kx))) l) = map (fun kx => (fst kx, g (snd kx))) (jsort l).
+Proof.
+  induction l as [|a l IH]; [reflexivity|]. cbn [map jsort fold_right]. fold (jsort l).
+  fold (jsort (map (fun kx => (fst kx, g (snd kx))) l)). rewrite IH. apply (jinsert_map_snd g a).
 Qed.
